@@ -4,7 +4,7 @@ SPEC = dict(
     pkg="./store", files=["store/c28_verif_test.go"],
     rule="round trips: every byte string over {a,b} of length <= 6 (quick) / <= 10 (thorough) x chunk sizes 1..9 x both reader behaviours at EOF "
          "(EOF together with / after the final bytes), plus random strings up to 3000 bytes with random chunk sizes, short-read schedules and lengths "
-         "that are exact multiples of the chunk size or one off, plus chunk sizes beyond the 1 MiB read buffer (oracle only); tampered chunk sequences "
+         "that are exact multiples of the chunk size or one off, plus structured streams at SQLite-like scales (55 quick / 615 thorough: up to ~200 KiB of 512/1024/4096-byte blocks that are zero-filled, constant-filled or pseudo-random, zero runs at the start / middle / END, all-zero streams, lengths that are multiples of 4096 and of the chunk size and one off, a real SQLite file padded with zero pages; chunk sizes 1000..100000), plus chunk sizes beyond the 1 MiB read buffer (oracle only); tampered chunk sequences "
          "(reordered, duplicated, dropped, foreign, renumbered, undecodable, unnamed chunks) into one receiver; interleaved LOAD_CHUNK command streams of "
          "1-3 streams with aborts and restarts through CommandProcessor.Process.  A case is non-trivial when the stream length is a positive multiple of the "
          "chunk size, or the chunk sequence is tampered, or the command stream contains an abort or more than one stream; distinct by input JSON",
@@ -23,5 +23,5 @@ SPEC = dict(
                "DechunkerManager Get/Delete and the LOAD_CHUNK branch of CommandProcessor.Process transcribed; gzip a hypothesis.",
     technique="Coq proof by fuel induction with a chunker/receiver synchronisation invariant + exhaustive and random differential run against the real code",
     design_ref="6/C28",
-    timeout_quick=600, timeout_thorough=7200, shard=300,
+    timeout_quick=600, timeout_thorough=7200, shard=150,
 )
